@@ -301,13 +301,42 @@ Definition eval (D : itree) (m : nsmap) (e : xpath_expr) (ctx : nd) : res (list 
   match f with Some x => Fault x | None => Ok (dedup (filter (fun n => negb (is_doc n)) l)) end.
 
 (* ---------------------------------------------------------------- QueryResults.in_document_order *)
-(* _sort_nodes_in_document_order: TagNodes only; a trie keyed by the index tuples, emitted with sorted keys *)
+(* utils._sort_nodes_in_document_order: TagNodes only (NotImplementedError otherwise); every node is added to a
+   _NodesSorter -- a trie keyed by the tuple of child indexes on the way from the root -- and the trie is emitted: its own
+   node, then the sub-tries by ascending key.  (The same trie is modelled over the concrete tree in Conc/CNav.v for C05;
+   here it holds node-set members.  The defaultdict is kept ordered by key; the code sorts the keys when it emits.  The
+   key tuple is the member's position: the indexes the code computes count the siblings the ambient filter lets
+   through, which orders the same way.) *)
+Inductive strie := STrie (node : option nd) (items : list (nat * strie)).
+Fixpoint strie_add (path : npath) (n : nd) (t : strie) {struct path} : strie :=
+  match path, t with
+  | [], STrie _ items => STrie (Some n) items
+  | k :: rest, STrie x items =>
+      STrie x ((fix go (l : list (nat * strie)) : list (nat * strie) :=
+                  match l with
+                  | [] => [(k, strie_add rest n (STrie None []))]
+                  | (k', sub) :: r =>
+                      if Nat.eqb k' k then (k', strie_add rest n sub) :: r
+                      else if Nat.ltb k k' then (k, strie_add rest n (STrie None [])) :: (k', sub) :: r
+                      else (k', sub) :: go r
+                  end) items)
+  end.
+Fixpoint strie_emit (t : strie) : list nd :=
+  match t with
+  | STrie x items =>
+      (match x with Some n => [n] | None => [] end) ++ flat_map (fun kv => strie_emit (snd kv)) items
+  end.
+Definition in_document_order (l : list nd) : res (list nd) :=
+  if forallb is_tagnode l
+  then Ok (strie_emit (fold_left (fun t x => strie_add (fst x) x t) l (STrie None [])))
+  else Crash NotImplementedError.
+
+(* what the trie amounts to (OrderFacts.v): insertion into a list sorted by position, a later member with the same
+   position replacing the earlier one *)
 Fixpoint insert_sorted (x : nd) (l : list nd) : list nd :=
   match l with
   | [] => [x]
   | y :: r => if path_ltb (fst x) (fst y) then x :: l
-              else if path_eqb (fst x) (fst y) then x :: r        (* same index tuple: the later entry replaces *)
+              else if path_eqb (fst x) (fst y) then x :: r
               else y :: insert_sorted x r
   end.
-Definition in_document_order (l : list nd) : res (list nd) :=
-  if forallb is_tagnode l then Ok (fold_left (fun acc x => insert_sorted x acc) l []) else Crash NotImplementedError.
